@@ -1046,7 +1046,8 @@ def make_userfile(shape):
             shown = [mk_rank(prog, "Other", [st.sym_char("o%d" % i)], st.sym_bv("od%d" % i, 8)) for i in range(2)]
             prev = st.sym_bv("prev_selection", 64)
             st.assume(z3.ULT(prev, 2))
-            sel_map = SMap("selections", [[(0x61,), SString([0x0995])]])
+            # learned earlier: a choice for the word now being composed and one for another word
+            sel_map = SMap("selections", [[(0x61,), SString([0x0995])], [(0x62, 0x63), SString([0x0996])]])
             ctx["old_mtime"] = st.sym_bv("old_mtime", 64)
             pm = mk_phonetic_method(prog, [0x61], mk_phonetic_suggestion(prog, shown, cache=SMap("cache", [[(0x61,), SVec([mk_rank(prog, "Other", [0x0995], 10)])]])),
                                     sel_map, prev, modified=ctx["old_mtime"])
